@@ -52,6 +52,7 @@ def run(ctx):
     import c07
     import c18
     c07.rule_cat(ctx, F)
+    c07.rule_ovf(ctx, F)    # every value a writer can print is read back: the integer readers overflow only beyond MAX
     c18.rule_tail(ctx, F)
     c18.rule_tab(ctx, F)    # binary fields are written and read through the Base16/32/64 alphabets
     c18.rule_encbits(ctx, F)  # and the encoders put the right bits into each symbol
